@@ -212,6 +212,18 @@ impl<F: Float + SampleUniform + std::fmt::Debug, D: Hash + Copy, H: Hasher + Def
         //
         Ok(())
     } // end of densify
+
+    /// verification hook: raw state (values, hashes, populated flags, number of empty bins),
+    /// readable before the sketch is finished
+    #[cfg(probminhash_verif)]
+    pub fn verif_raw(&self) -> (Vec<F>, Vec<u64>, Vec<bool>, i64) {
+        (
+            self.hsketch.clone(),
+            self.values.clone(),
+            self.init.clone(),
+            self.nb_empty,
+        )
+    }
 } // end of impl OptDensMinHash
 
 // ==============================================================================
@@ -394,6 +406,18 @@ impl<F: Float + SampleUniform + std::fmt::Debug, D: Hash + Copy, H: Hasher + Def
         }
         let res = self.densify();
         assert!(res.is_ok());
+    }
+
+    /// verification hook: raw state (values, hashes, populated flags, number of empty bins),
+    /// readable before the sketch is finished
+    #[cfg(probminhash_verif)]
+    pub fn verif_raw(&self) -> (Vec<F>, Vec<u64>, Vec<bool>, i64) {
+        (
+            self.hsketch.clone(),
+            self.values.clone(),
+            self.init.clone(),
+            self.nb_empty,
+        )
     }
 } // end of impl RevOptDensMinHash
 
